@@ -176,6 +176,7 @@ func (v *Verifier) verifyOne(b *Block, bd map[string]int64, variant int) (tr *Ta
 	v.mu.Unlock()
 	ex.target = name
 	ex.targetPkg = b.Pkg
+	ex.curBlock = b
 	tr.ex = ex
 	defer func() {
 		tr.Seconds = time.Since(start).Seconds()
@@ -387,13 +388,6 @@ func (v *Verifier) verifyOne(b *Block, bd map[string]int64, variant int) (tr *Ta
 		ex.cover(st, "function-exit")
 		if !st.pc.IsFalse() {
 			all := append(append([]Value(nil), args...), res...)
-			if len(b.Ghosts) > 0 {
-				esig := clauseFn(enss[0]).Obj.Type().(*types.Signature)
-				for gi, g := range b.Ghosts {
-					pt := esig.Params().At(esig.Params().Len() - len(b.Ghosts) + gi).Type()
-					all = append(all, ex.symbolicValue(g[0], pt))
-				}
-			}
 			for j, c := range enss {
 				s2 := st.fork(st.pc)
 				g := ex.inline(clauseFn(c), nil, pk, nil, recv, all, s2, site).(*Term)
@@ -422,8 +416,13 @@ func (tr *TargetResult) finish(v *Verifier, ex *Exec, nReqFacts int) {
 		sr := Solve("(set-option :produce-models true)\n"+ex.ts.SMTScript(asserts, nil, ""), v.Timeout, nil)
 		tr.Cover = sr.Status
 	}
-	tr.Results = ex.Discharge(v.Timeout, v.Keep)
-	// reachability guards
+	// The vacuity guards only ever act on an "unsat" answer; contradictions are found quickly or
+	// not at all, while a "sat" answer is out of reach with quantified facts. They run beside the
+	// obligations with a short budget.
+	guardT := v.Timeout
+	if guardT > 20*time.Second {
+		guardT = 20 * time.Second
+	}
 	type cres struct {
 		name string
 		dead bool
@@ -433,10 +432,19 @@ func (tr *TargetResult) finish(v *Verifier, ex *Exec, nReqFacts int) {
 		go func(c *Cover) {
 			asserts := append(append([]*Term(nil), ex.facts[:c.NFacts]...), c.PC)
 			script := ex.ts.SMTScriptLocked(&ex.smtMu, asserts, nil)
-			sr := Solve(script, v.Timeout, nil)
+			sr := Solve(script, guardT, nil)
 			ch <- cres{c.Name, sr.Status == "unsat"}
 		}(c)
 	}
+	// canary: "false" must not be provable from the collected facts
+	canary := make(chan *SolverResult, 1)
+	all := append([]*Term(nil), ex.facts...)
+	if len(all) > 0 {
+		go func() {
+			canary <- Solve(ex.ts.SMTScriptLocked(&ex.smtMu, all, nil), guardT, nil)
+		}()
+	}
+	tr.Results = ex.Discharge(v.Timeout, v.Keep)
 	for range ex.covers {
 		r := <-ch
 		if r.dead {
@@ -444,12 +452,10 @@ func (tr *TargetResult) finish(v *Verifier, ex *Exec, nReqFacts int) {
 		}
 	}
 	sort.Strings(tr.DeadCovers)
-	// canary: "false" must not be provable from the collected facts
-	all := append([]*Term(nil), ex.facts...)
 	if len(all) == 0 {
 		tr.CanaryRefuted = true
 	} else {
-		sr := Solve(ex.ts.SMTScript(all, nil, ""), v.Timeout, nil)
+		sr := <-canary
 		tr.CanaryRefuted = sr.Status == "sat"
 		if sr.Status != "sat" && sr.Status != "unsat" {
 			// undecided canary: rely on the cover check only
